@@ -108,6 +108,40 @@ def run(ctx):
                             if g.kind == "bool" and b.edge_dominates(g.block, g.bool_target(True), blk):
                                 ok = True
                     ctx.ob("U3", b.defp, "user-attribution-behind-filter", loc(t["sp"]), ok, "the association's user is only updated from a packet that passed the replay filter" if ok else "the association's user can be set from a packet that did not pass the replay filter")
+        # which field of the association is the reply address? the one the third slot of the reply tuple is read from (by role, not by name)
+        addr_fields = set()
+        for (blk, c, t) in b.calls():
+            if c.method == "send" and "Sender" in c.self_s and len(t["args"]) > 1:
+                p = op_place(t["args"][1])
+                for d in (b.defs().get(p[0], []) if p is not None else []):
+                    if d[0] == "assign" and d[3]["rv"]["k"] == "agg" and d[3]["rv"]["ak"] == "tuple" and len(d[3]["rv"]["ops"]) == 4:
+                        pa = op_place(d[3]["rv"]["ops"][2])
+                        if pa is not None:
+                            addr_fields |= set(_self_fields_read(b, pa[0]))
+        if not addr_fields:
+            ctx.anchor_lost("U3", "the association field replies are addressed to")
+        # the reply address of an association is only ever changed by a datagram that passed the replay filter: an authentic but
+        # replayed datagram sent from elsewhere must not redirect the session's replies
+        n_w = 0
+        for blk in b.rpo():
+            for s_ in b.stmts(blk):
+                if s_["k"] != "assign":
+                    continue
+                pl = s_["p"]
+                if not any(e[0] == "field" and len(e) > 2 and e[2] in addr_fields for e in pl[1]) or not any(e[0] == "deref" for e in pl[1]):
+                    continue
+                n_w += 1
+                ok = False
+                for (fb, fc, ft) in filt:
+                    for g in gates_of_value(b, ft["dest"][0]):
+                        if g.kind == "bool" and b.edge_dominates(g.block, g.bool_target(True), blk):
+                            ok = True
+                ctx.ob("U3", b.defp, "reply-address-changed-only-behind-filter", loc(s_["sp"]), ok,
+                       "the association's reply address is updated from a datagram that passed the replay filter" if ok else
+                       f"the association's reply address ({'/'.join(sorted(addr_fields))}) is overwritten from a datagram that has not passed the replay filter: a replayed "
+                       "(authentic) datagram sent from another address redirects every later reply of the session to that address")
+        if n_w == 0:
+            ctx.ob("U3", b.defp, "reply-address-changed-only-behind-filter", loc(b.sp), True, "the association task never changes its reply address (fixed at creation)", nontrivial=False)
     lst = [b for b in bodies if b.defp.startswith("octo_squirrel_server") and any(c.name == "UdpSocket::recv_from" for (_, c, _) in b.calls()) and any(c.name == "LruCache::get_mut" for (_, c, _) in b.calls())]
     ctx.floor("U3", "server UDP listener loop", 1, len(lst))
     for b in lst:
@@ -180,6 +214,26 @@ def _reads_field(b, l, fname):
             if pp and any(e[0] == "field" and e[2] == fname for e in pp[1]):
                 return True
     return False
+
+
+def _self_fields_read(b, local, depth=0):
+    """names of the fields (behind a dereference: of self / a captured self) this value is copied from, following moves and copies only"""
+    out = []
+    if depth > 6:
+        return out
+    for d in b.defs().get(local, []):
+        if d[0] != "assign":
+            continue
+        rv = d[3]["rv"]
+        q = op_place(rv.get("op")) if rv["k"] in ("use", "cast") else (rv.get("p") if rv["k"] == "ref" else None)
+        if q is None:
+            continue
+        names = [e[2] for e in q[1] if e[0] == "field" and len(e) > 2 and e[2]]
+        if names and any(e[0] == "deref" for e in q[1]):
+            out.append(names[-1])
+        elif not q[1]:
+            out += _self_fields_read(b, q[0], depth + 1)
+    return out
 
 
 def _derives_from_self_field(b, local, fname):
